@@ -38,3 +38,33 @@ package state
 //@   at State.undoPayFee assert undo_guarded: ledgerPrune || undoBlk.Height > curIrreversibleBlockHeight
 //@   at State.updateLatestBlockid assert undo_guarded: ledgerPrune || undoBlk.Height > curIrreversibleBlockHeight
 //@   at Meta.UpdateNextIrreversibleBlockHeightForPrune assert prune_only: ledgerPrune
+
+// ---- C02: the reported total only moves for coinbase outputs, by the output's
+// amount, up on do and down on undo; cached balances move by the amount of the
+// output spent / created, for its owner.
+//@ func State.doTxInternal
+//@   property C02
+//@   local txInput *protos.TxInput
+//@   local txOutput *protos.TxOutput
+//@   at UtxoVM.UpdateUtxoTotal assert total_only_for_coinbase: tx.Coinbase && $2 && sel(bigval, $0) == natOf(txOutput.Amount) && $1 == batch
+//@   at UtxoVM.SubBalance assert spent_output_leaves_balance: $0 == txInput.FromAddr && sel(bigval, $1) == natOf(txInput.Amount)
+//@   at UtxoVM.AddBalance assert created_output_enters_balance: $0 == txOutput.ToAddr && sel(bigval, $1) == natOf(txOutput.Amount) && sel(bigval, $1) != 0
+//@   at UtxoVM.CheckInputEqualOutput assert checks_this_tx: $0 == tx
+
+//@ func State.undoTxInternal
+//@   property C02
+//@   local txInput *protos.TxInput
+//@   local txOutput *protos.TxOutput
+//@   at UtxoVM.UpdateUtxoTotal assert total_only_for_coinbase: tx.Coinbase && !$2 && sel(bigval, $0) == natOf(txOutput.Amount) && $1 == batch
+//@   at UtxoVM.AddBalance assert restored_output_enters_balance: $0 == txInput.FromAddr && sel(bigval, $1) == natOf(txInput.Amount)
+//@   at UtxoVM.SubBalance assert removed_output_leaves_balance: $0 == txOutput.ToAddr && sel(bigval, $1) == natOf(txOutput.Amount) && sel(bigval, $1) != 0
+
+// Fee outputs go to (and on undo leave) the block's proposer, with the output's amount.
+//@ func State.payFee
+//@   property C02
+//@   local txOutput *protos.TxOutput
+//@   at UtxoVM.AddBalance assert fee_to_proposer: $0 == block.Proposer && sel(bigval, $1) == natOf(txOutput.Amount)
+//@ func State.undoPayFee
+//@   property C02
+//@   local txOutput *protos.TxOutput
+//@   at UtxoVM.SubBalance assert fee_from_proposer: $0 == block.Proposer && sel(bigval, $1) == natOf(txOutput.Amount)
